@@ -28,14 +28,15 @@ prop("C02",
      [("S1", S.S1, K01, {}), ("S2", S.S2, K01, {}), ("S3", S.S3, K01, {}), ("S4", S.S4, K01, {}), ("S5", S.S5, K01, {}),
       ("L2", lambda ctx: __import__("rules_run").L2(ctx), K01, {}),
       ("B1", S.opts_frame, K01, {"fields": ("StreamOrder",)}), ("B2", S.order_wiring, K01, {}),
-      ("R3", B.R3, ("K0",), {"parts": ("structures", "counts")}), ("E", B.C16_rules, ("K0",), {})],
+      ("R3", B.R3, ("K0",), {"parts": ("structures", "counts")}), ("E", B.C16_rules, ("K0",), {}), ("ID", B.ID_rules, ("K0",), {})],
      K01,
      "Decides the scheduler premises S1-S5 (and L2: each fold step returns its state only after the user future's Ready arm) on the MIR of every streaming path: counts/structure pairing chain "
      "(in-degree with forward structure, out-degree with reversed structure, build() orientation, StreamOpts::rev/default), "
      "sole ready-sends (preload of zero-count ids, release guarded by COUNTS[child]==0 after its decrement), sole count writes "
      "(-=1 once per child of the id received from DONE, no early exit), done-send dominated by the Ready arm of the user "
      "future's await, and id consistency (dequeued id = looked-up id = id sent on DONE); "
-     "B1 (every StreamOpts builder method keeps the fields it does not set: `rev()` survives later option calls) and R3 (edge counts and structure copies are taken after data-edge augmentation).",
+     "B1 (every StreamOpts builder method keeps the fields it does not set: `rev()` survives later option calls), R3 (edge counts and structure copies are taken after data-edge augmentation) "
+     "and ID (the FnIds add_fn/add_fns hand back are the NodeIndex values add_node assigned, so declared edges land on the functions they were declared for).",
      "MIR dataflow: value-source (allocation-site) provenance + dominance/control-dependence over resolved callees",
      "the induction along a topological order (paper); correctness of futures' fold/for_each_concurrent/join! and tokio channels")
 
@@ -52,7 +53,7 @@ prop("C03",
 
 prop("C04",
      [("T1", T.T1, K01, {}), ("T2", T.T2, K01, {}), ("T3", T.T3, K01, {"want_stream": False}),
-      ("S6", S.S6, K01, {}), ("S7", S.S7, K01, {}), ("S1", S.S1, K01, {}), ("T4", T.T4, ("K1",), {}), ("A1", T.A1, K01, {}),
+      ("S6", S.S6, K01, {}), ("S7", S.S7, K01, {}), ("S1", S.S1, K01, {}), ("T4", T.T4, ("K1",), {}), ("A1", T.A1, K01, {}), ("A2", R.A2, K01, {}),
       ("S2", S.S2, K01, {}), ("S3", S.S3, K01, {}), ("IM", S.S5_interrupt_map, ("K1",), {"rule": "IM"}),
       ("R3", B.R3, ("K0",), {"parts": ("structures", "counts")}), ("R4", B.R4, ("K0",), {})],
      K01,
@@ -60,7 +61,8 @@ prop("C04",
      "ready-sender released by the queuer), T2 (queuer and scheduler joined), T3 (wake-up typestate of every hand-written poll function "
      "outside the stream family, plus an inventory of every receive site), S6 (capacities), S7 (fallible sends never unwrapped), S2/S3 (every root preloaded, every "
      "successor released at count 0), T4 (interrupt notices reach the scheduler), IM (every Interrupted item sets the interrupted flag that T1.INTERRUPTED releases on), "
-     "R3 (counts describe the augmented graph: no count underflow) and A1 (no protocol future dropped or polled once and abandoned).",
+     "R3 (counts describe the augmented graph: no count underflow), A1 (no protocol future dropped or polled once and abandoned), "
+     "A2 (no short-circuiting concurrent driver above a body that runs user futures) and S6.nonzero (every channel capacity is >= 1 for the empty graph: mpsc::channel(0) panics).",
      "MIR typestate dataflow over poll functions + release-obligation table via control dependence and provenance, per entry point through the call graph",
      "absence of panics from index/arithmetic checks; fairness inside futures/tokio")
 
@@ -68,11 +70,12 @@ prop("C05",
      [("T3", T.T3, K01, {"want_stream": True}), ("U1", T.U1, K01, {}), ("S2", S.S2, K01, {}), ("S3", S.S3, K01, {}),
       ("S5", S.S5, K01, {}), ("S7", S.S7, K01, {}), ("S4", S.S4, K01, {"liveness": True}),
       ("S6", S.S6, K01, {"roles_filter": ("READY", "DONE")}),
-      ("R3", B.R3, ("K0",), {"parts": ("structures", "counts")}), ("T5", T.T5, K01, {})],
+      ("R3", B.R3, ("K0",), {"parts": ("structures", "counts")}), ("T5", T.T5, K01, {}), ("S1", S.S1, K01, {})],
      K01,
      "Decides T3 on the stream poll closure (no return that may be Pending after a Ready(Some) from the done receiver without re-polling it), "
      "U1 (end-of-stream bookkeeping: countdown from node_count decremented on Ready(Some), both senders released at 0 and for the empty graph, "
-     "READY polled only while the done-sender is held), S2/S3/S5 on the in-poll release loop, and U2 = S4(b)+S7 (FnRef::drop sends its own id on every path through drop, result discarded).",
+     "READY polled only while the done-sender is held), S2/S3/S5 on the in-poll release loop, and U2 = S4(b)+S7 (FnRef::drop sends its own id on every path through drop, result discarded), S1 (the counts the stream waits on are the degrees of the structure it walks, in both orders: "
+     "a mispaired count is never reached and the stream stays Pending with nothing outstanding) and S6.nonzero (capacity >= 1 for the empty graph).",
      "MIR path-sensitive typestate dataflow (receiver wake-up state) + provenance",
      "tokio's poll_recv waker contract (trusted; Ready(Some) registers no waker)")
 
@@ -82,14 +85,14 @@ K04 = ("K0", "K4")      # builder-side rules: with and without the async feature
 prop("C01",
      [("R1", B.R1, ("K0", "K3"), {}), ("R2", B.R2, ("K0",), {"strict_order": False}),
       ("R3", B.R3, ("K0",), {"parts": ("structures", "counts", "graph-field")}), ("R4", B.R4, ("K0",), {}),
-      ("R5", B.R5, ("K0", "K3"), {}),
+      ("R5", B.R5, ("K0", "K3"), {}), ("R6", B.D2_coverage, ("K0",), {}),
       ("S1", S.S1, K01, {}), ("S2", S.S2, K01, {}), ("S3", S.S3, K01, {}), ("S4", S.S4, K01, {}), ("S5", S.S5, K01, {})],
      ("K0", "K1", "K3"),
      "Decides R1 (the conflict predicate compares A.read x B.write, A.write x B.read, A.write x B.write for the two endpoints of the "
      "inserted edge and the insertion is taken iff one of them holds - truth table over the path conditions), R2 (every guard between the "
      "pair enumeration and the insertion is id identity, the per-iteration seen flag, the matching has_path_connecting or the predicate), "
      "R3 (augmentation dominates count calculation and structure copies on the same graph), R4 (every raw node/edge copied unconditionally "
-     "with its weight), R5 (access tables of R/W/()/fn_meta delegation agree), plus S1-S5 of the scheduler.",
+     "with its weight), R5 (access tables of R/W/()/fn_meta delegation agree), R6 (pair coverage: the inner scan ranges over list[outer position..] of the list the outer scan enumerates), plus S1-S5 of the scheduler.",
      "MIR taint/provenance of access declarations into comparison sites + symbolic path-condition enumeration of the insertion guard + dominance",
      "that the pairwise scan + has_path_connecting joins every conflicting pair for every DAG (functional correctness of the scan), and the schedule-level behaviour")
 
@@ -97,55 +100,60 @@ prop("C06",
      [("W1", B.W1, K0, {}), ("W2", B.W2, K0, {}), ("R1", B.R1, K0, {}), ("W3", S.W3, K01, {}), ("S3", S.S3, K01, {}),
       ("S6", S.S6, K01, {"roles_filter": ("READY", "DONE")}),
       ("W4", lambda ctx: __import__("rules_run").W4(ctx), K01, {}), ("S2", S.S2, K01, {}),
-      ("R3", B.R3, K0, {"parts": ("structures", "counts")}), ("R4", B.R4, K0, {})],
+      ("R3", B.R3, K0, {"parts": ("structures", "counts")}), ("R4", B.R4, K0, {}), ("S1", S.S1, K01, {}),
+      ("T3", T.T3, K01, {"want_stream": True})],
      K01,
      "Decides W4 = L1 (limit forwarded unchanged, so None gates nothing), W1 (the only edge-adding call on the user's graph reachable from build() is update_edge with the constant Edge::Data, "
      "no other node/edge-set mutator), W2 (the comparison pairs feeding its guard contain no read x read pair and no same-function pair; "
      "expected-zero rule with a seeded positive control in the self-test), the guard being exactly the disjunction of the comparisons (R1 truth table), "
-     "W3 = S2/S3 (every successor reaching count 0 is queued in the same visit; the release walk has no early exit) and S2 (all zero-count functions are preloaded).",
+     "W3 = S2/S3 (every successor reaching count 0 is queued in the same visit; the release walk has no early exit), S2 (all zero-count functions are preloaded), S1 (counts are the degrees of the structure walked, so a count reaches 0 exactly when the predecessors returned) "
+     "and T3 (every Pending return of a hand-written poll function leaves a waker registered on the done channel: an idle call is not one that missed a completion).",
      "MIR who-may-call inventory over the call graph of build() + provenance of comparison operands",
      "the quiescence statement over runs (whenever idle, everything runnable was started)")
 
 prop("C11",
      [("R3", B.R3, K04, {"parts": ("graph-field",)}), ("W1", B.W1, K04, {}), ("B3", B.B3, K04, {}), ("R2", B.R2, K04, {"strict_order": True}),
-      ("R1", B.R1, K04, {}), ("K", B.C13_rules, K04, {}), ("P1", B.P1, K04, {}), ("E", B.C16_rules, K04, {})],
+      ("R1", B.R1, K04, {}), ("K", B.C13_rules, K04, {}), ("P1", B.P1, K04, {}), ("E", B.C16_rules, K04, {}),
+      ("ID", B.ID_rules, K04, {}), ("R6", B.D2_coverage, K04, {})],
      K04,
      "Decides B1 (phase order: ranks, then augmentation, then counts and structure copies, all on the same graph which becomes FnGraph.graph), "
      "B2 (no add_node/remove/clear/retain reaches the user's Dag from build()), B3 (the only added edge is Edge::Data, control dependent on "
      "has_path_connecting(G,a,b) == false for the same (a,b): an existing edge is never overwritten), B4 (structure copies complete), B5 = R1/R2, "
      "P1 (panic-site inventory of build(): no trapping arithmetic, explicit panic, unwrap other than on an edge insertion, or computed slice bound) and "
-     "E1-E3 (every accepted logic/contains edge is stored by update_edge with the kind its method names).",
+     "E1-E3 (every accepted logic/contains edge is stored by update_edge with the kind its method names), ID (returned FnIds are add_node's) and R6 (pair coverage of the conflict scan).",
      "MIR dominance + who-may-call inventory + path-condition enumeration",
      "acyclicity of the augmented graph, unreachability of the two expect()s, and that every conflicting pair is joined by a path (semantic invariant of the rank-sorted scan)")
 
 prop("C12",
      [("D1", B.D1, K04, {}), ("D2", B.D2, K04, {}), ("D3", B.D3, K04, {}), ("D4", B.D4, K04, {}),
-      ("K", B.C13_rules, K04, {}), ("E", B.C16_rules, K04, {})],
+      ("K", B.C13_rules, K04, {}), ("E", B.C16_rules, K04, {}), ("R2", B.R2, K04, {"strict_order": True}), ("B3", B.B3, K04, {}),
+      ("D4e", lambda ctx: R.edge_eq_rule(ctx, "D4"), K04, {})],
      K04,
      "Decides D1 (ids listed in ascending id order and sorted by a stable sort whose comparator is ranks[first] vs ranks[second], ascending), "
      "D2 (the Data edge goes from the outer element to an element at a later position of the same sorted list), D3 (no hash-ordered container, "
      "RNG, clock, thread, env or address-derived value reachable from build()), D4 (FnGraph == compares node count, each edge's source, target and "
      "weight, and each function, pairwise over unfiltered zipped sequences, as a conjunction: one unequal pair decides), D2 also requires the outer scan to run from the highest rank down (non-redundancy); "
-     "K1-K5 (the ranks the order is defined by are the logic/contains longest-path ranks) and E1-E3 (an edge's kind, which == compares, is the one its builder method names).",
+     "K1-K5 (the ranks the order is defined by are the logic/contains longest-path ranks), E1-E3 (an edge's kind, which == compares, is the one its builder method names) "
+     "and R2/B3 (the only guards on the insertion are id identity, the seen flag, the conflict predicate and `!has_path_connecting(a, b)` for the same pair: a weaker path test adds edges that repeat an implied ordering).",
      "MIR expression reconstruction of the comparator/list construction + iterator-chain inventory + callee/type inventory",
      "non-redundancy of Data edges and the exact tie-break outcome as functions of the input")
 
 prop("C13",
-     [("K", B.C13_rules, K04, {}), ("R3", B.R3, K04, {"parts": ("ranks",)})],
+     [("K", B.C13_rules, K04, {}), ("R3", B.R3, K04, {"parts": ("ranks",)}), ("E", B.C16_rules, K04, {})],
      K04,
      "Decides K1 (ranks start as Rank(0) x node_count), K2 (the work queue is seeded with exactly the parent-less nodes), K3 (every store to "
      "ranks[child] is ranks[parent]+1 - constant 1 through Rank: Add<usize>, whose body adds the fields - merged by max or guarded by candidate > existing), "
-     "K4 (a raised child is re-queued), K5 (the calculation is generic over an unbounded F, never reads an edge weight, and FnGraph.ranks is its "
-     "unchanged result computed before augmentation).",
+     "K4 (a raised child is re-queued, and neither the children walk nor the worklist loop around the update can be left before it is exhausted), K5 (the calculation is generic over an unbounded F, never reads an edge weight, and FnGraph.ranks is its "
+     "unchanged result computed before augmentation) and E1-E3 (the edges the ranks are computed over are the declared ones: from/to and kind of every add_*_edge(s) call reach update_edge in that order).",
      "MIR expression reconstruction + provenance of the rank vector + control dependence",
      "that the relaxation reaches the longest-path fixpoint for every insertion order (paper argument)")
 
 prop("C16",
-     [("E", B.C16_rules, ("K0", "K4"), {})],
+     [("E", B.C16_rules, ("K0", "K4"), {}), ("W1", B.W1, ("K0", "K4"), {})],
      ("K0", "K4"),
      "Decides E1 (add_logic_edge/add_contains_edge perform exactly one daggy::Dag::update_edge(from, to, const Logic|Contains) - directly or through crate-local helpers whose parameters are "
      "resolved at their call site - with the result returned unchanged), E2 (batch forms perform that same insertion once per element in array order, with the kind their name says, stop at and return the first error), "
-     "E3 (no other public builder method mutates the edges of the user's graph).",
+     "E3 (no other public builder method mutates the edges of the user's graph) and W1 (build() itself adds only Data edges and calls no other node/edge-set mutator, so accepted edges reach the built graph intact).",
      "MIR call inventory with resolved callees + argument provenance",
      "daggy's cycle test itself (update_edge: must_check_for_cycle + has_path_connecting), trusted")
 
@@ -161,12 +169,14 @@ prop("C18",
 
 prop("C07",
      [("F", R.F_rules, K01, {}), ("S6", S.S6, K01, {"roles_filter": ("RESULT",)}), ("T1", T.T1, K01, {"kinds": ("FAILED",)}),
-      ("O4", R.O4, K01, {}), ("S7", S.S7, K01, {})],
+      ("O4", R.O4, K01, {}), ("S7", S.S7, K01, {}),
+      ("B1", S.opts_frame, K01, {"fields": ("StreamOrder",)}), ("B2", S.order_wiring, K01, {})],
      K01,
      "Decides F1 (on the Err arm of the user future exactly one awaited send on the RESULT channel carries that error), F2 (from the Err arm every "
      "path to the done-send passes through the release of the done-sender), F3 (RESULT capacity monotone in node_count; its receiver is drained only "
      "after the join; Err((outcome, errors)) iff the collected vector is non-empty, unchanged), F4 (control adapters map Continue->Ok, Break(e)->Err(e)), "
-     "F5 (try-fold: the step's Err value is the user's error via `?` and no callback is reachable after it), F6 (the per-item futures are driven by an adaptor that does not stop at the first Err), plus T1.FAILED.",
+     "F5 (try-fold: the step's Err value is the user's error via `?` and no callback is reachable after it), F6 (the per-item futures are driven by an adaptor that does not stop at the first Err), plus T1.FAILED, and B1/B2 (the order requested in StreamOpts reaches the structure/count selection of every variant, "
+     "so 'ordered after the failed function' means the same edges in the run as in the property).",
      "MIR must-pass-through (dominance/path) analysis from the Err arm + provenance of error values with failure-tagged access paths",
      "that already started futures complete (contract of for_each_concurrent, trusted)")
 
@@ -215,7 +225,8 @@ prop("C17",
      ("K2",),
      "Decides G1 (nodes from iter_insertion() in order, each mapped by the caller's function, one unconditional add_node each), G2 (edges from raw_edges() in order mapped to "
      "(source(), target(), weight) with no filter, into add_edges), G3 (GraphInfo, Edge, FnIdInner implement both Serialize and Deserialize; serialisability for all NodeInfo by the witness crate), "
-     "G4 (iter uses Topo over graph for construction and stepping, iter_rev over Reversed(graph)), G5 (== compares node weights and source/target/weight of every edge).",
+     "G4 (iter uses Topo over graph for construction and stepping, iter_rev over Reversed(graph)), G5 (== compares node weights and source/target/weight of every edge; Edge's own == is the derived variant-by-variant comparison), "
+     "G7 (no mutator other than the copying add_node/add_edges touches the copy before it is returned).",
      "MIR iterator-chain inventory + expression reconstruction of the mapped tuple + impl table",
      "value-level round-trip equality through a concrete format (serde/daggy/serde_yaml_ng behaviour)")
 
@@ -225,7 +236,7 @@ import rules_state as ST
 SERDE_DEP = 'serde = { version = "1", features = ["derive"] }'
 
 prop("C15",
-     [("N", ST.N_rules, K01, {}), ("D3", B.D3, K0, {})],
+     [("N", ST.N_rules, K01, {}), ("D3", B.D3, K0, {}), ("N6", B.N6, K01, {}), ("U1", T.U1, K01, {})],
      K01,
      "Whole-property static argument (non-interference): N1 nothing reachable through &FnGraph<F> other than F contains an UnsafeCell (explicit deep type walk: "
      "fields, generic arguments, pointees, normalised projections); N2 no hand-written unsafe block and no unsafe impl other than IndexType for FnIdInner (identity wrapper); "
@@ -233,14 +244,16 @@ prop("C15",
      "N5 no body writes or mutably borrows graph_structure / graph_structure_rev / ranks / edge_counts of an existing graph, and `&mut graph` only reaches node-weight accessors; "
      "witness: dropping a run midway and starting another type-checks for every F, scheduling fields are private (E0616). Hence a run's behaviour is a function of the unchanged "
      "graph fields, its options, the caller's closures and the schedule only; an earlier (completed, interrupted, failed or dropped) run can influence it only through F or the caller's own state. "
-     "Equal fields on a freshly built graph follow from D3 (deterministic build).",
+     "Equal fields on a freshly built graph follow from D3 (deterministic build). N6: no body of the crate reads ambient state that earlier runs advance "
+     "(RNG, clock, thread id, environment, RandomState-seeded containers, address-derived values). U1: the stream's poll function ends the stream only on its own countdown / released done-sender, "
+     "so a Pending caused by the task's cooperative budget (which earlier runs in the same task poll consume) delays a run but never truncates it - the premise behind the trusted assumption below.",
      "type-level deep-immutability walk + effect (write / &mut borrow) inventory over all MIR bodies + borrow-checker witnesses",
      "tokio's cooperative budget (a thread-local of the dependency) only adds self-woken Pendings; interior mutability inside the user's F is the user's",
      level="other")
 PROPS["C15"]["witnesses"] = [("c15", [], ""), ("c15", ["interruptible"], "")]
 
 prop("C20",
-     [("N", ST.N_rules, K01, {}), ("A1", T.A1, K01, {})],
+     [("N", ST.N_rules, K01, {}), ("A1", T.A1, K01, {}), ("N6", B.N6, K01, {})],
      K01,
      "Whole-property static argument (non-interference of simultaneous runs): N1-N5 as for C15 (nothing mutable is reachable through &FnGraph; no global state; all per-run state "
      "allocated per call; scheduling fields never written), plus FnGraph<F>: Sync for F: Send + Sync (shared runs from several threads), two shared-reference runs and a stream may be "
